@@ -169,10 +169,12 @@ def case_pool(case):
 
     def wait_turn(pool_idx, tid):
         started[pool_idx * ntasks + tid] = 1
+        if state["orders"] is None:
+            return  # conformance probe: no prescribed order
         pos = state["orders"][pool_idx].index(tid)
         t0 = time.time()
         while ctr[pool_idx] != pos:
-            if time.time() - t0 > 60:
+            if time.time() - t0 > 20:
                 gate_err.value = 1
                 raise RuntimeError("gate timeout")
             time.sleep(0.0005)
@@ -220,9 +222,29 @@ def case_pool(case):
 
     bi.run_bldfm_single, bi.run_bldfm_timeseries, bi.ProcessPoolExecutor = gated_single, gated_ts, RecordingPool
     traces = inversions = 0
+    not_applicable = None
+    schedules = []
+
+    def judge(res, how):
+        for m in _compare(res, ref, cfg, ns, "run_bldfm_parallel[%s, W=%d]" % (strat, W)):
+            v.append({"sub": "parallel", "sig": "parallel/%s/%s" % (strat, how), "msg": "%s (%s); case %s" % (m, how, core.canon({k: case[k] for k in case if k != "orders"}))})
+
     try:
+        # conformance probe: one free-running call through the recording executor.  The model speaks about `npools` pools with
+        # `ntasks` tasks each, every task passing the wrapped seam exactly once; if the implementation's pool structure is
+        # different the model does not bind to it - the cell is then judged on free-running calls only and reported as such
+        state["orders"] = None
+        del pools[:]
+        res = bi.run_bldfm_parallel(cfg, max_workers=W, parallel_over=strat)
+        nexec += nt * ns
+        if len(pools) != npools or any(p._vf_workers != W for p in pools) or any(p._vf_n != ntasks for p in pools) or sum(started) != npools * ntasks:
+            not_applicable = "pool structure differs from the model: %d executor(s) with %r submissions and %r workers, %d of %d tasks passed the seam (model: %d executor(s) x %d tasks, %d workers)" % (
+                len(pools), [p._vf_n for p in pools], [p._vf_workers for p in pools], sum(started), npools * ntasks, npools, ntasks, W)
+            judge(res, "free-running")
+            judge(bi.run_bldfm_parallel(cfg, max_workers=W, parallel_over=strat), "free-running")
+            nexec += nt * ns
         per_pool = [tuple(o) for o in case["orders"]]  # completion orders (0-based) of ONE pool of ntasks tasks
-        schedules = list(itertools.product(per_pool, repeat=npools))
+        schedules = list(itertools.product(per_pool, repeat=npools)) if not_applicable is None else []
         for sched in schedules:
             state["orders"] = [list(o) for o in sched]
             for i in range(npools):
@@ -230,19 +252,29 @@ def case_pool(case):
             for i in range(len(started)):
                 started[i] = 0
             del pools[:]
-            res = bi.run_bldfm_parallel(cfg, max_workers=W, parallel_over=strat)
+            try:
+                res = bi.run_bldfm_parallel(cfg, max_workers=W, parallel_over=strat)
+            except Exception:
+                if gate_err.value:
+                    res = None
+                else:
+                    raise
             nexec += nt * ns
-            traces += 1
             # conformance: the seam was exercised and the implementation followed the model trace
-            if gate_err.value:
-                raise core.HarnessError("gate timeout: the model allowed order %r which the pool cannot produce (W=%d)" % (sched, W))
-            if len(pools) != npools or any(p._vf_workers != W for p in pools):
-                raise core.HarnessError("expected %d executor(s) with %d workers, saw %r" % (npools, W, [(p._vf_workers) for p in pools]))
-            if sum(started) != npools * ntasks:
-                raise core.HarnessError("gate passed by %d of %d tasks - the wrapped seam is no longer the task function" % (sum(started), npools * ntasks))
+            if gate_err.value or res is None:
+                # the implementation did not follow a completion order the model allows (workers that outlive a call, tasks
+                # bundled differently ...): the model does not bind to it; judged on free-running calls instead
+                not_applicable = "a worker waited 20 s for its turn under the completion order %r the model allows" % (sched,)
+                state["orders"] = None
+                judge(bi.run_bldfm_parallel(cfg, max_workers=W, parallel_over=strat), "free-running")
+                break
             observed = [tuple(p._vf_done) for p in pools]
-            if observed != [tuple(o) for o in sched]:
-                raise core.HarnessError("completion order observed in the parent %r != prescribed %r" % (observed, sched))
+            if len(pools) != npools or any(p._vf_workers != W for p in pools) or sum(started) != npools * ntasks or observed != [tuple(o) for o in sched]:
+                not_applicable = "under the prescribed completion order %r the parent observed %r with %d executor(s); %d of %d tasks passed the seam" % (sched, observed, len(pools), sum(started), npools * ntasks)
+                state["orders"] = None
+                judge(res, "free-running")
+                break
+            traces += 1
             if any(list(o) != sorted(o) for o in sched):
                 inversions += 1
             cmp_msgs = _compare(res, ref, cfg, ns, "run_bldfm_parallel[%s, W=%d]" % (strat, W))
@@ -253,8 +285,125 @@ def case_pool(case):
     finally:
         bi.run_bldfm_single, bi.run_bldfm_timeseries, bi.ProcessPoolExecutor = orig_single, orig_ts, RealPool
     return {"v": v[:6], "nt": inversions if inversions else (1 if traces else False), "key": core.canon({k: case[k] for k in case if k != "orders"}), "n": nexec,
-            "obs": {"traces": traces, "traces_with_inversion": inversions, "tasks_per_pool": ntasks, "pools": npools,
+            "obs": {"traces": traces, "traces_with_inversion": inversions, "tasks_per_pool": ntasks, "pools": npools, "model_not_applicable": not_applicable,
                     "last_schedule_replayed_and_observed": [list(o) for o in schedules[-1]] if schedules else None}}
+
+
+def case_cache_race(case):
+    """what the pool workers of strategy "towers" do (the cached time series of one tower each) for two towers with result
+    caching on, as two workers forked from this process, under EVERY interleaving of their cache-file operations with at most two
+    preemptions; afterwards the serial drivers - now served from what the workers left in .bldfm_cache - must still return
+    the single runs"""
+    import bldfm.interface as bi
+    from vf import cacherace
+
+    nt, ns = case["shape"]
+    ref_cfg = make_config(nt, ns, False, True, case.get("variant", "plain"))
+    ref = {t.name: [bi.run_bldfm_single(ref_cfg, t, met_index=i) for i in range(ns)] for t in ref_cfg.towers}
+    cfg = make_config(nt, ns, True, True, case.get("variant", "plain"))
+
+    def worker(k):
+        def run(cdir):
+            # what a pool worker of strategy "towers" does, through the public API: fresh FFT layer, one thread, the tower's series
+            from bldfm import config as rt_
+            from bldfm.fft_manager import reset_fft_manager
+
+            rt_.NUM_THREADS = 1
+            reset_fft_manager()
+            name, res = cfg.towers[k].name, bi.run_bldfm_timeseries(cfg, cfg.towers[k])
+            return name, [{kk: r[kk] for kk in ("conc", "flx", "grid", "tower_name", "tower_xy", "timestamp", "params")} for r in res]
+        return run
+
+    def judge(label, out):
+        name, res = out
+        if name != label or len(res) != ns:
+            return "returned %r with %d results" % (name, len(res))
+        for i in range(ns):
+            d = _same_result(res[i], ref[label][i])
+            if d:
+                return "step %d: %s" % (i, d)
+        return None
+
+    def after(cdir):
+        msgs = []
+        res = bi.run_bldfm_multitower(cfg)
+        for t in cfg.towers:
+            for i in range(ns):
+                d = _same_result(res[t.name][i], ref[t.name][i])
+                if d:
+                    msgs.append("a later cached run: tower %s step %d: %s" % (t.name, i, d))
+                    return msgs
+        return msgs
+
+    return cacherace.explore([(cfg.towers[k].name, worker(k)) for k in range(nt)], judge, after, bound=case["bound"], sub="cache-race", what="strategy 'towers' with use_cache, %d towers x %d steps" % (nt, ns))
+
+
+def big_config(nt, ns, stamps, cache=False):
+    from bldfm.config_parser import parse_config_dict
+
+    met = {"ustar": [0.25 + 0.013 * i for i in range(ns)], "wind_dir": [(17.0 + 47.0 * i) % 360.0 for i in range(ns)], "mol": [(-40.0, 150.0, -300.0)[i % 3] for i in range(ns)], "wind_speed": [2.5 + 0.1 * (i % 7) for i in range(ns)]}
+    if stamps:
+        met["timestamps"] = ["2024-07-01T%02d:%02d" % (i // 2, 30 * (i % 2)) for i in range(ns)]
+    return parse_config_dict({
+        "domain": {"nx": 8, "ny": 6, "xmax": 80.0, "ymax": 60.0, "nz": 3, "modes": [8, 6], "ref_lat": 50.0, "ref_lon": 10.0, "halo": 10.0},
+        "towers": [{"name": "mast_%d" % k, "lat": 50.0001 + 0.00008 * k, "lon": 10.0002 + 0.00011 * ((k * 3) % 5), "z_m": 4.0 + 0.5 * k} for k in range(nt)],
+        "met": met, "solver": {"footprint": True, "precision": "double"}, "parallel": {"use_cache": cache}})
+
+
+def shape_cases(tier):
+    # shapes beyond what the completion-order model enumerates (the pool runs freely here): towers != steps, more tasks than
+    # workers with uneven splits, more than 16 (tower, step) pairs, one tower / one step, with and without timestamps
+    shapes = [(2, 3), (3, 2), (1, 5), (3, 3), (3, 6)] if tier == "quick" else [(2, 3), (3, 2), (1, 5), (5, 1), (3, 3), (3, 6), (6, 3), (2, 9), (1, 17), (5, 4), (4, 5)]
+    for (nt, ns), strat, stamps in itertools.product(shapes, ("towers", "time", "both"), (True, False)):
+        for W in ((2, 3, 4) if nt * ns <= 9 else (2, 4)):
+            if tier == "quick" and stamps and W == 3:
+                continue
+            yield {"shape": [nt, ns], "strategy": strat, "W": W, "stamps": stamps}
+
+
+def case_shapes(case):
+    import bldfm.interface as bi
+
+    nt, ns = case["shape"]
+    cfg = big_config(nt, ns, case["stamps"])
+    with __import__("warnings").catch_warnings():
+        __import__("warnings").simplefilter("ignore")
+        ref = {t.name: [bi.run_bldfm_single(cfg, t, met_index=i) for i in range(ns)] for t in cfg.towers}
+        res = bi.run_bldfm_parallel(cfg, max_workers=case["W"], parallel_over=case["strategy"])
+    out = _compare(res, ref, cfg, ns, "run_bldfm_parallel[%s, W=%d], %d towers x %d steps, %s timestamps" % (case["strategy"], case["W"], nt, ns, "with" if case["stamps"] else "without"))
+    v = [{"sub": "shapes", "sig": "shapes/%s" % case["strategy"], "msg": "%s; case %s" % (m, core.canon(case))} for m in out[:3]]
+    return {"v": v, "nt": True, "n": nt * ns * 2}
+
+
+def case_sessions(case):
+    """one live configuration object through two consecutive parallel runs with an edit in between (grid size, halo, forcing,
+    a tower moved): the second run is the single runs of the configuration as it is THEN"""
+    import bldfm.interface as bi
+
+    cfg = big_config(2, 3, True)
+    v = []
+    n = 0
+    with __import__("warnings").catch_warnings():
+        __import__("warnings").simplefilter("ignore")
+        for k, edit in enumerate([None] + list(case["edits"])):
+            if edit == "grid":
+                cfg.domain.nx, cfg.domain.ny, cfg.domain.modes = 10, 8, (10, 8)
+            elif edit == "halo":
+                cfg.domain.halo = 25.0
+            elif edit == "forcing":
+                cfg.met.ustar = [u + 0.1 for u in cfg.met.ustar]
+            elif edit == "tower":
+                cfg.towers[0].x, cfg.towers[0].y = cfg.towers[0].x + 10.0, cfg.towers[0].y + 10.0
+            elif edit == "levels":
+                cfg.domain.output_levels = [2, 0]
+            ref = {t.name: [bi.run_bldfm_single(cfg, t, met_index=i) for i in range(3)] for t in cfg.towers}
+            res = bi.run_bldfm_parallel(cfg, max_workers=case["W"], parallel_over=case["strategy"])
+            n += 12
+            out = _compare(res, ref, cfg, 3, "parallel run %d of one session (edits so far: %r), strategy %s, W=%d" % (k, ([None] + list(case["edits"]))[1:k + 1], case["strategy"], case["W"]))
+            if out:
+                v.append({"sub": "sessions", "sig": "sessions/%s" % (edit or "first"), "msg": "%s; case %s" % (out[0], core.canon(case))})
+                break
+    return {"v": v, "nt": True, "n": n}
 
 
 def cells(tier):
@@ -311,8 +460,18 @@ def run(ctx):
     for c in cl:
         c["orders"] = [[x - 1 for x in o] for o in model[(c["ntasks"], c["W"])]["orders"]]
     res = core.run_forked(ctx, case_pool, cl, sub="pool-cell", nproc=8)
+    core.run_forked(ctx, case_cache_race, [{"shape": [2, 1], "bound": 2}, {"shape": [2, 2], "bound": 1, "variant": "steady"}] + ([{"shape": [2, 2], "bound": 2}, {"shape": [3, 1], "bound": 2}] if ctx.tier != "quick" else []),
+                    sub="pool workers sharing the result cache: all interleavings, preemption-bounded", nproc=4, timeout=1800)
+    ctx.run_cases(case_shapes, shape_cases(ctx.tier), sub="further shapes / worker counts / unlabelled steps (free-running pool)", chunksize=1)
+    ctx.run_cases(case_sessions, [{"edits": list(e_), "strategy": s_, "W": 2} for e_ in (("grid",), ("halo", "forcing"), ("tower", "levels"), ("forcing", "grid")) for s_ in ("towers", "time", "both")], sub="one configuration object through consecutive parallel runs", chunksize=1)
     ctx.run_cases(driverfail.case_failing_step, driverfail.cases(ctx.tier), sub="series with an unusable step / process state: deliver nothing or deliver it right", chunksize=1)
     traces = int(sum(r.get("obs", {}).get("traces", 0) for r in res))
+    na = [(c, r["obs"]["model_not_applicable"]) for c, r in zip(cl, res) if (r.get("obs") or {}).get("model_not_applicable")]
+    ctx.cov["cells_where_the_pool_model_did_not_bind"] = len(na)
+    if na:
+        ctx.assumptions.append("in %d of %d cells the implementation's pool structure differed from models/PoolMap.tla (first: %s); those cells were judged on free-running calls only" % (len(na), len(cl), na[0][1][:200]))
+    if na and not ctx.violations:
+        raise core.HarnessError("the pool model does not bind to %d of %d cells although no result differs from the single runs - models/PoolMap.tla no longer describes the implementation: %s" % (len(na), len(cl), na[0][1]))
     ctx.cov.update(
         {
             "states": states,
@@ -322,7 +481,7 @@ def run(ctx):
             "model": "models/PoolMap.tla explored by %s; (tasks, workers) pairs: %s" % ("TLC (-dump dot,actionlabels) and cross-checked by vf/poolmodel.python_model" if used_tlc else "the Python enumerator only (TLC not found)", combos),
             "model_orders_per_pair": {"N=%d,W=%d" % k: len(m["orders"]) for k, m in model.items()},
             "model_wall_s": model_wall,
-            "conformance": "every trace: observed completion order in the parent == model trace; all gates passed; executor count and worker count as modelled (else harness error)",
+            "conformance": "per cell a free-running probe (executor count, submissions per executor, worker count, every task through the wrapped seam) and per trace: observed completion order in the parent == model trace, all gates passed; a cell whose probe differs is judged on free-running calls and counted in cells_where_the_pool_model_did_not_bind",
         }
     )
     big = [r for r, c in zip(res, cl) if c["ntasks"] >= 4 and c["W"] >= 3][:3]
